@@ -115,7 +115,8 @@ class Evaluator:
             if p["id"] not in callee_env:
                 continue
             v = callee_env[p["id"]] if not isinstance(callee_env, LayerEnv) else dict.get(callee_env, p["id"])
-            if isinstance(v, (int, bool)) or v is None:
+            if isinstance(v, (int, bool)) or v is None or t.startswith(("std::shared_ptr<", "std::unique_ptr<")):
+                # (a smart pointer handed over by reference: the callee may have re-seated it)
                 u = a
                 while isinstance(u, dict) and u.get("k") == "cast":
                     u = u["e"]
